@@ -4,6 +4,12 @@ Generated: structured IR graphs of a function (vlib.irgraphgen.graph over the x8
 lifter: data registers, flags, 8/16-bit identifiers, stack / register / absolute memory cells read
 and written, branches, bounded loops, modelled calls, parallel AssignBlock hazards); one shard in
 eight takes x86_32 functions of the compiled-C corpus instead (vlib.ccorpus, clang -O0/-O1/-O2/-Os).
+Two hazard-directed strata (vlib.ircstgen, PRNG-driven, 24 + 24 cases per shard in the quick tier) add what independent
+draws make rare: (a) distinct constants stored to adjacent cells of one base, re-read at unaligned offsets / other
+widths spanning them (the symbolic memory must glue slices of two constants), the loaded registers used through
+copies / arithmetic and stored to sink cells; (b) loads through a pointer register that is path dependent (set
+differently in two joining arms, modified in one arm, walked in a loop), the pointer redefined after the load
+(also in the same AssignBlock, or by the loaded value) and the loaded value used afterwards.
 propagate_cst_expr(lifter, copy, head, lifter.arch.regs.regs_init) is applied to a copy, as
 example/expression/constant_propagation.py does.
 
@@ -12,13 +18,16 @@ init_infos (every register X holds an arbitrary value and X_init the same value;
 contents): same ordered memory writes (those that change memory), same exit destination, same sequence of executed blocks, same final value
 of every register of the vocabulary.
 
-Buckets name the root cause found by substitution: memory-read-propagated-as-constant when the failure
-disappears once memory reads are not taken as "constant expressions" (is_expr_cst), via-simplifier when
+Buckets name the root cause found by substitution: non-constant-pointer-read-propagated when the failure disappears
+once a memory read counts as a "constant expression" only if its pointer is one (what is_expr_cst documents),
+memory-read-propagated-as-constant when it
+disappears once memory reads are not taken as "constant expressions" at all (is_expr_cst), via-simplifier when
 it disappears with a pass-free ExpressionSimplifier in place of cst_propag's expr_simp, else mismatch.
 """
 from vlib.runner import Check, ShardResult, Failure
 from vlib import hyp
 from vlib import irgraphgen as gg
+from vlib import ircstgen as cg
 
 _state = {}
 REGS = [r for r in gg.STATE_REGS]
@@ -64,9 +73,22 @@ def _no_mem_cst(lifter, expr):
     return True
 
 
-def run_propag(lifter, ircfg, head, nosimp=False, nomem=False):
-    """-> (copy rewritten, exception | None).  nosimp / nomem are used for the diagnosis of a failure only:
-    pass-free expression simplifier / memory reads not taken as constant expressions."""
+def _ptr_checked_cst(lifter, expr):
+    """diagnosis only: the constant test as documented ("only composed of ExprInt and init_regs", memory reads
+    accepted) applied to the pointers of the memory reads too"""
+    for element in expr.get_r(mem_read=True):
+        if element.is_mem() or element.is_int():
+            continue
+        if element.is_id() and element in lifter.arch.regs.all_regs_ids_init:
+            continue
+        return False
+    return True
+
+
+def run_propag(lifter, ircfg, head, nosimp=False, nomem=False, ptrchk=False):
+    """-> (copy rewritten, exception | None).  nosimp / nomem / ptrchk are used for the diagnosis of a failure only:
+    pass-free expression simplifier / memory reads not taken as constant expressions / memory reads taken as
+    constant expressions only when their pointer is one."""
     from miasm.analysis import cst_propag
     import logging
     cst_propag.LOG_CST_PROPAG.setLevel(logging.ERROR)
@@ -78,6 +100,8 @@ def run_propag(lifter, ircfg, head, nosimp=False, nomem=False):
         cst_propag.expr_simp = ExpressionSimplifier()
     if nomem:
         cst_propag.SymbExecStateFix.is_expr_cst = lambda _, lifter_, expr: _no_mem_cst(lifter_, expr)
+    elif ptrchk:
+        cst_propag.SymbExecStateFix.is_expr_cst = lambda _, lifter_, expr: _ptr_checked_cst(lifter_, expr)
     try:
         try:
             cst_propag.propagate_cst_expr(lifter, work, head, lifter.arch.regs.regs_init)
@@ -124,7 +148,10 @@ def judge(case, stats=None, info=None):
             return e is not None or gg.compare_runs(ircfg, w, head, states=states, mode="sequence", regs=REGS_,
                                                     same_path=True, word="propagated", calls=False) is not None
         # root cause diagnosis by substitution
-        if not still_fails(nomem=True):
+        if not still_fails(ptrchk=True):
+            # a read through a pointer that is not a constant expression was propagated (the pointer may change)
+            bucket = "non-constant-pointer-read-propagated:" + kind
+        elif not still_fails(nomem=True):
             bucket = "memory-read-propagated-as-constant:" + kind
         elif not still_fails(nosimp=True):
             bucket = "via-simplifier:" + kind
@@ -139,7 +166,12 @@ class C40(Check):
     rule = ("Hypothesis: structured IR graphs of a function (vlib.irgraphgen: diamond / multi-way / counted, while, "
             "irreducible loops / loop through the head / early exits / modelled calls; memory reads and writes on "
             "stack, register-based and absolute cells; irgen's parallel-assignment hazards; <= 12 blocks; x86_32 "
-            "model-call lifter), plus, in one shard of eight, x86_32 functions compiled from generated C and lifted. "
+            "model-call lifter); two PRNG-driven hazard strata of vlib.ircstgen (24 + 24 per shard quick, 150 + 150 "
+            "thorough): distinct constants stored to adjacent cells of one base then loaded at unaligned offsets / "
+            "other widths spanning them and used through registers and sink stores; loads through a path-dependent "
+            "pointer register (diamond arms / if-then / loop walk; controls with constant pointers) that is redefined "
+            "after the load, loaded value used afterwards; plus, in one shard of eight, x86_32 functions compiled "
+            "from generated C and lifted. "
             "propagate_cst_expr with init_infos = arch.regs.regs_init on a copy; original and "
             "rewritten graph executed by the concrete interpreter from 8 states with X_init = X and 8 memory "
             "contents; memory writes, exit, block path and all vocabulary registers compared. Non-trivial: at least one "
@@ -176,6 +208,24 @@ class C40(Check):
             for b, d in fails:
                 res.fail(b, d, {"graph": js})
         hyp.survey(strat, n, seed, one)
+        # hazard-directed strata (vlib.ircstgen): adjacent constant cells re-read at other offsets / widths;
+        # loads through path-dependent pointers redefined before the loaded value is used
+        import random
+        from vlib.runner import derive_seed
+        nh = 150 if tier == "thorough" else 24
+        for which, gen in (("cstmem", cg.const_cells_graph), ("pathptr", cg.path_pointer_graph)):
+            for i in range(nh):
+                g = gen(voc(), random.Random(derive_seed(seed, which, shard, i)))
+                info = {}
+                js = gg.ser(g)
+                fails = judge({"graph": gg.deser(js)}, res.counters, info)
+                for s in set(g["meta"]["shapes"]):
+                    res.counters["shape:" + s] += 1
+                nt = info.get("rewritten", 0) > 0
+                res.counters[which + "-cases"] += 1
+                res.case(nontrivial_key=repr(js) if nt else None, sample=js if nt and i == 5 and shard % 8 == 0 else None)
+                for b, d in fails:
+                    res.fail(b, d, {"graph": js})
         return res
 
     def run_lifted(self, res, seed, n):
